@@ -12,6 +12,9 @@ Case format (JSON):
              | {.., "kind": "webhook", "key": str, "json": {..} | "form": [[k, v], ..]}],
    "tail": seconds}
   F = ["var", name] | ["cmp", op, name, literal] | ["not", F] | ["and", F, F] | ["or", F, F]
+      | ["int", op, name, int]  int(name) op int     (ValueError on the generator's strings, TypeError on None/containers)
+      | ["div", op, name, int]  6 // name op int     (ZeroDivisionError, TypeError)
+      | ["lookup", name, [[int, bool], ..]]  {..}[name]   (KeyError, TypeError for unhashable values)
 """
 import ast
 import json
@@ -275,6 +278,12 @@ def q_filter(it, f):
         return f"(FVar {q.N(it.sid(f[1]))})"
     if op == "cmp":
         return f"(FCmp {CMPOP[f[1]]} {q.N(it.sid(f[2]))} {q_val(it, f[3])})"
+    if op == "int":
+        return f"(FInt {CMPOP[f[1]]} {q.N(it.sid(f[2]))} {q.Z(f[3])})"
+    if op == "div":
+        return f"(FDiv {CMPOP[f[1]]} {q.N(it.sid(f[2]))} {q.Z(f[3])})"
+    if op == "lookup":
+        return f"(FLookup {q.N(it.sid(f[1]))} {q.lst(f'({q.Z(k)}, {q.boolean(b)})' for k, b in f[2])})"
     if op == "not":
         return f"(FNot {q_filter(it, f[1])})"
     return f"({'FAnd' if op == 'and' else 'FOr'} {q_filter(it, f[1])} {q_filter(it, f[2])})"
@@ -347,6 +356,12 @@ def _render_filter(f):
         return f[1]
     if op == "cmp":
         return f"{f[2]} {f[1]} {f[3]!r}"
+    if op == "int":
+        return f"int({f[2]}) {f[1]} {f[3]!r}"
+    if op == "div":
+        return f"6 // {f[2]} {f[1]} {f[3]!r}"
+    if op == "lookup":
+        return "{" + ", ".join(f"{k!r}: {b!r}" for k, b in f[2]) + "}[" + f[1] + "]"
     if op == "not":
         return f"(not {_render_filter(f[1])})"
     return f"({_render_filter(f[1])} {op} {_render_filter(f[2])})"
@@ -370,7 +385,7 @@ def _passes(dec, args):
     if dec.get("filter") is None:
         return True
     try:
-        return bool(eval(_render_filter(dec["filter"]), {"__builtins__": {}}, {k: _py_val(v) for k, v in args.items()}))  # pylint: disable=eval-used
+        return bool(eval(_render_filter(dec["filter"]), {"__builtins__": {"int": int}}, {k: _py_val(v) for k, v in args.items()}))  # pylint: disable=eval-used
     except Exception:  # pylint: disable=broad-except
         return False
 
@@ -449,7 +464,7 @@ def gen_value(rng, nested_ok=True):
         return rng.choice([True, False])
     if not nested_ok:
         return 5
-    return rng.choice([[], [1, 2], {"x": 1.5}, {}, [{"y": "s"}], 2.5])
+    return rng.choice([[], [1, 2], {"x": 1.5}, {}, [{"y": "s"}], [2.5]])
 
 
 def gen_data(rng, n=None):
@@ -458,10 +473,27 @@ def gen_data(rng, n=None):
     return {k: gen_value(rng) for k in keys}
 
 
+def gen_raising(rng, name):
+    """a filter atom that raises on some payloads: ValueError/TypeError (int), ZeroDivisionError/TypeError (//),
+    KeyError/TypeError (dict display lookup)"""
+    r = rng.random()
+    if r < 0.4:
+        return ["int", rng.choice(["==", ">=", "<", "!="]), name, rng.choice([0, 1, 2])]
+    if r < 0.7:
+        return ["div", rng.choice(["==", ">=", "<"]), name, rng.choice([2, 3, 6])]
+    keys = rng.sample([0, 1, 2, 3, -1, 7], rng.choice([1, 2, 3]))
+    return ["lookup", name, [[k, rng.random() < 0.7] for k in keys]]
+
+
+RAISE_NAMES = ["ka", "kb", "kc"]
+
+
 def gen_filter(rng, names, depth=0):
     r = rng.random()
     if depth >= 2 or r < 0.5:
         name = rng.choice(names)
+        if name in RAISE_NAMES + ["qos", "payload_obj"] and rng.random() < 0.3:
+            return gen_raising(rng, name)
         if rng.random() < 0.2:
             return ["var", name]
         op = rng.choice(["==", "==", "!=", "<", "<=", ">", ">="])
@@ -513,6 +545,36 @@ def gen_call(rng):
     if bl is not None:
         act["blocking"] = bl
     return act
+
+
+RAISE_PATTERNS = [  # (filter on NAME, value that makes it raise, exception kind, value that passes)
+    (lambda n: ["int", "==", n, 1], "s", "ValueError", 1),
+    (lambda n: ["int", ">=", n, 1], "", "ValueError", 2),
+    (lambda n: ["div", "==", n, 6], 0, "ZeroDivisionError", 1),
+    (lambda n: ["div", "<", n, 6], False, "ZeroDivisionError", 2),
+    (lambda n: ["lookup", n, [[1, True], [2, True]]], 7, "KeyError", 1),
+    (lambda n: ["lookup", n, [[1, True]]], None, "KeyError", True),
+    (lambda n: ["lookup", n, [[1, True]]], [1], "TypeError", 1),
+    (lambda n: ["cmp", ">", n, 0], "s", "TypeError", 1),
+]
+
+
+def add_raise_then_ok(rng, funcs, sched, types=None):
+    """one @event_trigger whose filter raises on one event (various exception kinds) and must still start one run for each
+    later well-formed matching event"""
+    mk, bad, _kind, good = rng.choice(RAISE_PATTERNS)
+    fn = rng.choice(funcs)
+    # events stream: only a type the function already listens to (keeps the fire graph acyclic)
+    key = rng.choice(types) if types else rng.choice([d["key"] for d in fn["decs"] if d["kind"] == "event"] or ["pv_e0"])
+    dec = {"kind": "event", "key": key, "filter": mk("ka"), "kwargs": {"kz": 9} if rng.random() < 0.5 else None}
+    fn["decs"].insert(rng.randrange(len(fn["decs"]) + 1), dec)
+    pos = rng.randrange(len(sched) + 1)
+    sched.insert(pos, {"kind": "event", "key": key, "data": {"ka": bad}})
+    for _ in range(rng.choice([1, 2, 3])):
+        ent = {"kind": "event", "key": key, "data": {"ka": good, "kb": rng.choice([0, 1])}}
+        if rng.random() < 0.3:
+            ent["wait"] = rng.choice([0.5, 3.0])
+        sched.insert(rng.randrange(pos + 1, len(sched) + 1), ent)
 
 
 def tail_of(case):
@@ -685,6 +747,8 @@ class EventStream(FlowStream):
                 elif r < 0.4:
                     ent["settle"] = True
                 sched.append(ent)
+            if rng.random() < 0.3:
+                add_raise_then_ok(rng, funcs, sched)
             if rng.random() < 0.04:
                 rng.choice(sched)["data"]["context"] = rng.choice(["zzz", 5])  # D81 territory
             case = {"legacy": legacy, "funcs": funcs, "sched": sched}
@@ -717,7 +781,9 @@ class MqttStream(FlowStream):
                     flt = None
                     if rng.random() < 0.55:
                         r = rng.random()
-                        if r < 0.3:
+                        if r < 0.15:
+                            flt = gen_raising(rng, rng.choice(["qos", "payload_obj", "payload_obj"]))
+                        elif r < 0.3:
                             flt = ["cmp", rng.choice([">", ">=", "==", "<"]), "qos", rng.choice([0, 1, 2])]
                         elif r < 0.5:
                             flt = ["cmp", rng.choice(["==", "!="]), "topic", rng.choice(topics)]
@@ -730,7 +796,8 @@ class MqttStream(FlowStream):
                     kw = {"kz": gen_value(rng, nested_ok=False)} if rng.random() < 0.4 else None
                     decs.append({"kind": "mqtt", "key": rng.choice(patterns), "filter": flt, "kwargs": kw})
                 if rng.random() < 0.25:
-                    decs.insert(rng.randrange(len(decs) + 1), {"kind": "event", "key": "pv_e0", "filter": None,
+                    decs.insert(rng.randrange(len(decs) + 1), {"kind": "event", "key": "pv_e0",
+                                                               "filter": gen_raising(rng, "ka") if rng.random() < 0.4 else None,
                                                                "kwargs": {"kz": 1} if rng.random() < 0.5 else None})
                 funcs.append({"name": f"f{fi}", "decs": decs, "acts": gen_acts(rng, ["pv_out"], long_sleep=True)})
             sched = []
@@ -746,6 +813,15 @@ class MqttStream(FlowStream):
                 elif r < 0.4:
                     ent["settle"] = True
                 sched.append(ent)
+            if rng.random() < 0.25:
+                add_raise_then_ok(rng, funcs, sched, ["pv_e0"])
+            if rng.random() < 0.2:  # the same with an mqtt filter: int("s") -> ValueError, then well-formed messages
+                fn = rng.choice(funcs)
+                fn["decs"].append({"kind": "mqtt", "key": "pv/a", "filter": ["int", "==", "payload_obj", 1], "kwargs": None})
+                pos = rng.randrange(len(sched) + 1)
+                sched.insert(pos, {"kind": "mqtt", "topic": "pv/a", "payload": "\"s\"", "qos": 0, "retain": False})
+                for _ in range(rng.choice([1, 2])):
+                    sched.insert(rng.randrange(pos + 1, len(sched) + 1), {"kind": "mqtt", "topic": "pv/a", "payload": "1", "qos": 1, "retain": False})
             case = {"legacy": legacy, "funcs": funcs, "sched": sched}
             case["tail"] = tail_of(case)
             cases.append(case)
@@ -780,12 +856,20 @@ class WebhookStream(FlowStream):
                     flt = None
                     if rng.random() < 0.4:
                         flt = rng.choice([["var", "payload"], ["cmp", "==", "webhook_id", rng.choice(ids)], ["not", ["var", "payload"]],
-                                          ["cmp", ">", "payload", 1], ["var", "nothere"]])
+                                          ["cmp", ">", "payload", 1], ["var", "nothere"], ["int", "==", "payload", 1],
+                                          ["lookup", "webhook_id", [[1, True]]], ["div", "<", "payload", 3]])
                     kw = {"kz": gen_value(rng, nested_ok=False)} if rng.random() < 0.4 else None
                     decs.append({"kind": "webhook", "key": key, "filter": flt, "kwargs": kw})
+                if rng.random() < 0.25:
+                    decs.insert(rng.randrange(len(decs) + 1), {"kind": "event", "key": "pv_e0", "kwargs": None,
+                                                               "filter": gen_raising(rng, "ka") if rng.random() < 0.6 else None})
                 funcs.append({"name": f"f{fi}", "decs": decs, "acts": gen_acts(rng, ["pv_out"], long_sleep=True)})
             sched = []
             for _ in range(rng.choice([2, 3, 5, 8])):
+                if rng.random() < 0.2:
+                    ent = {"kind": "event", "key": "pv_e0", "data": gen_data(rng)}
+                    sched.append(ent)
+                    continue
                 ent = {"kind": "webhook", "key": rng.choice(ids)}
                 if rng.random() < 0.5:
                     ent["json"] = rng.choice([{}, {"x": 1}, {"x": "1", "y": [1, 2]}, {"a": None}])
@@ -797,6 +881,8 @@ class WebhookStream(FlowStream):
                 elif r < 0.4:
                     ent["settle"] = True
                 sched.append(ent)
+            if rng.random() < 0.3:
+                add_raise_then_ok(rng, funcs, sched, ["pv_e0"])
             case = {"legacy": legacy, "funcs": funcs, "sched": sched}
             case["tail"] = tail_of(case)
             cases.append(case)
